@@ -267,4 +267,4 @@ def oracle(case):
 
 PARTS = [Part("inputs", case_, oracle, n_quick=200, n_thorough=3000)]
 QUOTAS = {"aliasing-candidate": {"quick": 20, "thorough": 1000}, "vals:zeros": {"quick": 40, "thorough": 1000},
-          "layout:N2_C": {"quick": 15, "thorough": 300}, "layout:dataframe": {"quick": 15, "thorough": 300}}
+          "layout:N2_C": {"quick": 6, "thorough": 150}, "layout:dataframe": {"quick": 6, "thorough": 150}}
